@@ -4,7 +4,7 @@ Every allocation site is treated as able to fail (the enumeration over the
 k-th allocation is subsumed): the rules look at what each function does with
 the result and with what it already holds on every path.
 """
-from plint import guards, uaf, resources
+from plint import partial, guards, uaf, resources
 from plint.flow import Flow
 from plint.ir import calls, strip_casts, cv, line, show, root_var, walk, ap
 from plint.units import AnalysisBroken, INFORMATIONAL
@@ -201,6 +201,40 @@ def run(prog, rep):
         raise AnalysisBroken("C18.5 positive control failed: pmem.c does not reference the raw allocator")
     rep.floor("C18.5", 1)
 
+    # ---- C18.6 -------------------------------------------------------------------------------
+    rep.rule("C18.6", "unwinding through the destructor: where a function hands an object it allocated itself to the type's destructor, every member the destructor "
+                      "dereferences without a NULL test (directly, through the functions it calls, or under an element count) is non-NULL at that call - "
+                      "members that are still the allocation's zero fill or whose own allocation just failed are NULL there")
+    summ = partial.needs(prog, units=set(un for un in prog.units if un not in INFORMATIONAL))
+    destr = partial.destructors(prog)
+    n6 = 0
+    for un, u in sorted(prog.units.items()):
+        if un in INFORMATIONAL:
+            continue
+        for f0 in sorted(u.functions.values(), key=lambda f: f.loc[0]):
+            fn = u.fn(f0.name)
+            try:
+                found = partial.sites(fn, summ, destr)
+            except AnalysisBroken:
+                continue
+            by_call = {}
+            for (c, cal, v, bad, w) in found:
+                ent = by_call.setdefault((line(c), cal, v), [c, None, None])
+                if bad is not None and ent[1] is None:
+                    ent[1], ent[2] = bad, w
+            k6 = {}
+            for (ln, cal, v), (c, bad, w) in sorted(by_call.items(), key=lambda kv: kv[0]):
+                k6[cal] = k6.get(cal, 0) + 1
+                n6 += 1
+                inst = "partial:%s#%d" % (cal, k6[cal])
+                if bad is None:
+                    rep.ob("C18.6", fn, inst, True, "%s (%s) runs only with the members it dereferences set, or tests them" % (cal, v), c)
+                else:
+                    (fld, cnt, l2, how, why) = bad
+                    rep.ob("C18.6", fn, inst, False, "line %d: %s (%s) is called while %s; %s dereferences that member at line %d (%s) without a NULL test: "
+                           "the unwinding of a failed allocation crashes instead of reporting the failure" % (ln, cal, v, why, cal, l2, how), c, w, info=f0.name not in reach)
+    rep.floor("C18.6", 5)
+
 
 def short(p):
     return "".join(ch if ch.isalnum() or ch in "_->." else "_" for ch in str(p))[:40]
@@ -228,6 +262,14 @@ SELFTEST = [
          old="\tif (P_UNLIKELY ((item = p_malloc0 (sizeof (PList))) == NULL)) {\n\t\tP_ERROR (\"PList::p_list_prepend", new="\tif (P_UNLIKELY ((item = calloc (1, sizeof (PList))) == NULL)) {\n\t\tP_ERROR (\"PList::p_list_prepend"),
     dict(id="shm-new-name-unwind-dropped", file="src/pshm-posix.c", expect="C18.2",
          old="\t\t\t\t     \"Failed to allocate memory for segment name\");\n\t\tp_shm_free (ret);\n\t\treturn NULL;", new="\t\t\t\t     \"Failed to allocate memory for segment name\");\n\t\treturn NULL;"),
+    dict(id="hash-table-new-unwinds-with-destructor", expect="C18.6", edits=[
+        dict(file="src/phashtable.c",
+             old="\tif (P_UNLIKELY ((ret->table = p_malloc0 (P_HASH_TABLE_SIZE * sizeof (PHashTableNode *))) == NULL)) {\n\t\tP_ERROR (\"PHashTable::p_hash_table_new: failed(2) to allocate memory\");\n\t\tp_free (ret);",
+             new="\tret->size = P_HASH_TABLE_SIZE;\n\n\tif (P_UNLIKELY ((ret->table = p_malloc0 (ret->size * sizeof (PHashTableNode *))) == NULL)) {\n\t\tP_ERROR (\"PHashTable::p_hash_table_new: failed(2) to allocate memory\");\n\t\tp_hash_table_free (ret);"),
+        dict(file="src/phashtable.c", old="\tret->size = P_HASH_TABLE_SIZE;\n\n\treturn ret;", new="\treturn ret;")]),
+    dict(id="hash-table-new-destructor-with-zero-size-neutral", file="src/phashtable.c", expect=None,
+         old="\t\tP_ERROR (\"PHashTable::p_hash_table_new: failed(2) to allocate memory\");\n\t\tp_free (ret);",
+         new="\t\tP_ERROR (\"PHashTable::p_hash_table_new: failed(2) to allocate memory\");\n\t\tp_hash_table_free (ret);"),
     dict(id="socket-new-via-helper-neutral", file="src/plibraryloader-posix.c", expect=None,
          old="\t\tpp_library_loader_clean_handle (handle);\n\t\treturn NULL;", new="\t\tdlclose (handle);\n\t\treturn NULL;"),
 ]
